@@ -77,13 +77,14 @@ GNextWith(extra) ==
                IF node[n].alive /\ ~node'[n].alive
                THEN LET kx == {s \in extra : s.n = n}        \* killed in the middle of this step: what it had reached
                     IN
-                    [has |-> TRUE, log |-> IF kx # {} THEN (CHOOSE s \in kx : TRUE).log ELSE node[n].log,
+                    [has |-> TRUE, log |-> node[n].log,
+                     klog |-> IF kx # {} THEN (CHOOSE s \in kx : TRUE).log ELSE <<>>,
                      \* success replies it put on the wire in the very step it died in count as acknowledgements too
                      ack |-> MaxOf({ackIdx[n]} \cup (IF kx # {} THEN AckSent(n) ELSE {})),
                      \* term and vote it had made known before the step it died in
                      term |-> node[n].term, votedFor |-> node[n].votedFor, inside |-> (kx # {}),
                      \* the process died in a tick of its own that had a finished serialization to acknowledge
-                     trimming |-> (lastTick' = n /\ node[n].serPid = -1),
+                     trimming |-> (lastTick' = n /\ (node[n].serPid = -1 \/ (node[n].serPid = 1 /\ node[n].child.st = "ok"))),
                      jlog |-> IF "disk" \in DOMAIN node'[n] THEN node'[n].disk.jlog ELSE <<>>]
                ELSE IF node'[n].alive /\ ~node'[n].needLoad THEN [has |-> FALSE]
                ELSE preCrash[n]]
@@ -365,8 +366,7 @@ RemovedIsInert ==
 (* holds every committed entry it had acknowledged before it died - in its log or covered by its snapshot    *)
 AckedLost(n) ==
   IF preCrash[n].has /\ node'[n].alive /\ ~node'[n].needLoad /\ node[n].alive /\ node[n].needLoad
-  THEN {k \in 1..Len(preCrash[n].log) :
-          LET e == preCrash[n].log[k] IN
+  THEN {e \in {preCrash[n].log[k] : k \in 1..Len(preCrash[n].log)} \cup {preCrash[n].klog[k] : k \in 1..Len(preCrash[n].klog)} :
           /\ e.idx <= preCrash[n].ack /\ \E p \in CG : Key3(p) = <<e.idx, e.term, e.cmd>>
           /\ ~HoldsLog(node'[n].log, e)}
   ELSE {}
